@@ -67,8 +67,9 @@ class World:
                        "nested_basis_and_units", "fault_unwinds", "large_file_rewritten", "two_directories_in_one_session", "several_objects_in_one_file", "imported_axis_saved", "format:.txt", "format:.npy", "format:.npz", "format:.mat", "format:.dat",
                        "complex_basis_context", "save_inside_complex_basis_context", "same_object_exported_again_under_other_units",
                        "export_matrix_with_a_singleton_dimension", "import_into_object_holding_real_data",
-                       "saved_in_two_sibling_basis_contexts"]
-    required_faults = ["write_ENOSPC", "F1_simfault"]
+                       "saved_in_two_sibling_basis_contexts", "whole_array_write_inside_basis_context",
+                       "saved_while_protected_inside_context"]
+    required_faults = ["write_ENOSPC", "F1_simfault", "refused_savedir"]
     components = {
         "real": ["Saveable.save/load/scopy/savedir/loaddir", "Parcel / load_parcel (dill)", "DataSaveable.save_data/load_data, "
                  "MatrixData.save_data/load_data", "BasisManaged pickling hooks", "energy_units / eigenbasis_of around save and load",
@@ -98,7 +99,8 @@ class World:
             # swarm member: basis contexts of a complex Hermitian operator (unitary, not orthogonal, transformation)
             classes = [c for c in classes if CLASSES[c] not in NOT_WITH_COMPLEX_CONTEXT and CLASSES[c] not in ("SelfAdjoint", "RDM")]
             classes += [CLASSES.index("SelfAdjointComplex"), CLASSES.index("RDM") if False else CLASSES.index("Operator")]
-        kinds = ["enter_u", "enter_b", "enter_b", "exit", "exit", "touch", "touch", "save", "save", "save", "load", "load", "load",
+        kinds = ["wholewrite", "protected_save",
+                 "enter_u", "enter_b", "enter_b", "exit", "exit", "touch", "touch", "save", "save", "save", "load", "load", "load",
                  "scopy", "savedir", "export", "export", "fault", "badsave", "multisave"]
         if rng.random() < 0.3:
             kinds = [k for k in kinds if k not in ("fault", "badsave")]
@@ -124,6 +126,10 @@ class World:
                 ops.append({"op": "fault", "unwind": rng.choice([1, 1, 2])})
             elif k == "touch":
                 ops.append({"op": "touch", "k": rng.randrange(32)})
+            elif k == "wholewrite":
+                ops.append({"op": "wholewrite", "k": rng.randrange(32), "c": rng.randint(1, 9), "save": rng.random() < 0.5})
+            elif k == "protected_save":
+                ops.append({"op": "protected_save", "k": rng.randrange(32), "how": rng.choice(["save", "scopy"])})
             elif k == "save":
                 ops.append({"op": "save", "k": rng.randrange(32), "how": rng.choice(["file", "file", "path"])})
             elif k == "badsave":
@@ -133,7 +139,7 @@ class World:
             elif k == "scopy":
                 ops.append({"op": "scopy", "k": rng.randrange(32)})
             elif k == "savedir":
-                ops.append({"op": "savedir", "k": rng.randrange(32), "k2": rng.randrange(32)})
+                ops.append({"op": "savedir", "k": rng.randrange(32), "k2": rng.randrange(32), "bad": rng.random() < 0.4})
             elif k == "multisave":
                 ops.append({"op": "multisave", "ks": [rng.randrange(32) for _ in range(rng.randint(2, 3))]})
             elif k == "export":
@@ -524,6 +530,69 @@ class Runner:
         self.ctx.ev(i, "touch", k, it.cls)
         self.ctx.cov("touch", it.cls, self.context_signature())
 
+    def op_wholewrite(self, i, op):
+        """The first access of a Hamiltonian inside a basis context is a whole-array write (what load_data does). The
+        values written are a multiple of the unit matrix - the same matrix in every basis - so the ground truth is known."""
+        if not self.in_basis_ctx():
+            return
+        k = self.pick_item(op["k"], lambda it: it.cls == "Hamiltonian")
+        if k is None:
+            return
+        it = self.items[k]
+        c_int = 0.01 * op["c"]
+        try:
+            it.real.data = float(self.m.convert_energy_2_current_u(c_int)) * numpy.eye(DIM)
+        except Exception as e:
+            raise Violation("write-raises", "op %d: whole-array write into item #%d under %r: %s: %s" % (i, k, self.context_signature(), type(e).__name__, e))
+        it.truth = {"data": c_int * numpy.eye(DIM)}
+        for sl in self.slots:
+            if sl["src"] == k:
+                sl["stale"] = True
+        # loaded copies of this item made earlier keep the truth they were loaded with; later saves carry the new one
+        self.ctx.probe("whole_array_write_inside_basis_context")
+        self.ctx.ev(i, "wholewrite", k, op["c"])
+        self.ctx.cov("wholewrite", self.context_signature())
+        if op.get("save"):
+            try:
+                cp = it.real.scopy()
+            except Exception as e:
+                raise Violation("scopy-raises", "op %d: %s: %s" % (i, type(e).__name__, e))
+            self._register_loaded(i, {"src": k, "cls": it.cls, "ctx": self.context_signature()}, cp, "scopy after a whole-array write")
+
+    def op_protected_save(self, i, op):
+        """An object is protected from basis changes after it was brought into the context's basis, and saved while
+        protected: the loaded object must show what the saved one shows."""
+        if not self.in_basis_ctx():
+            return
+        k = self.pick_item(op["k"], lambda it: it.cls in ("Operator", "SelfAdjoint", "RDM", "SelfAdjointComplex"))
+        if k is None:
+            return
+        it = self.items[k]
+        try:
+            self.obs(it.cls, it.real)
+            it.real.protect_basis()
+        except Exception as e:
+            raise Violation("read-raises", "op %d: %s: %s" % (i, type(e).__name__, e))
+        try:
+            try:
+                if op["how"] == "scopy":
+                    cp = it.real.scopy()
+                else:
+                    f = SimFile()
+                    it.real.save(f, test=True)
+                    f.seek(0)
+                    cp = self.qr.load_parcel(f)
+            except Exception as e:
+                raise Violation("save-raises", "op %d: saving the protected item #%d (%s): %s: %s" % (i, k, it.cls, type(e).__name__, e))
+            self.compare_now(it.cls, it.real, cp, "op %d: %s of item #%d (%s) while protected inside %r" % (i, op["how"], k, it.cls, self.context_signature()),
+                             "loaded-equals-saved")
+        finally:
+            it.real.unprotect_basis()
+        self.roundtrips += 1
+        self.ctx.probe("saved_while_protected_inside_context")
+        self.ctx.ev(i, "protected_save", k, it.cls, op["how"])
+        self.ctx.cov("protected_save", it.cls, op["how"])
+
     def _probe_save(self, it):
         if self.in_basis_ctx() and it.cls in BASIS_CLASSES:
             try:
@@ -624,6 +693,8 @@ class Runner:
         if not self.slots:
             return
         slot = self.slots[op["s"] % len(self.slots)]
+        if slot.get("stale"):
+            return           # its source was given other values since: there is nothing to compare the parcel with
         src = self.items[slot["src"]]
         before = self.manager_state()
         try:
@@ -669,9 +740,24 @@ class Runner:
         try:
             a.real.savedir(d, tag=t1)
             b.real.savedir(d, tag=t2)
-            out = a.real.loaddir(d)
         except Exception as e:
             raise Violation("savedir-raises", "op %d: %s: %s" % (i, type(e).__name__, e))
+        if op.get("bad"):
+            # a third object that cannot be saved (it carries a generator): the refusal must leave the directory readable
+            junk = self.qr.TimeAxis(0.0, 3, 1.0)
+            junk.note = (x for x in range(3))
+            refused = False
+            try:
+                junk.savedir(d, tag=10 * i + 3)
+            except Exception:
+                refused = True            # NB: the exception object is not kept (see op_badsave)
+            self.ctx.fault("refused_savedir")
+            check(refused, "harness", "an object holding a generator was saved")
+        try:
+            out = a.real.loaddir(d)
+        except Exception as e:
+            raise Violation("savedir-raises", "op %d: loaddir%s: %s: %s" % (i, " after a refused savedir into the same directory" if op.get("bad") else "",
+                                                                           type(e).__name__, e))
         check(sorted(out.keys()) == [t1, t2], "savedir-tags", "op %d: directory lists tags %r, saved %r" % (i, sorted(out.keys()), [t1, t2]))
         self.ctx.probe("savedir_loaddir")
         self.nsavedir = getattr(self, "nsavedir", 0) + 1
